@@ -56,7 +56,7 @@ def implMarshalAppend (S : Schema) (o : MOpts) (fuel : Nat) (i : Nat) (pre : Byt
     `input.Flags` as output flags and input bit 0 (DiscardUnknown) is output bit 0 (Initialized). -/
 def implUnmarshal (S : Schema) (o : UOpts) (i : Nat) (m0 : Val) (bs : Bytes) : Res Val :=
   let start := if o.merge then m0 else (if m0.isNone then m0 else emptyMsg S i)
-  match implUnmarshalClosure S o (bs.length + 1) i start bs with
+  match implUnmarshalClosure S o (bs.length + 1) 10000 i start bs with
   | .ok v => if !o.discard && walkPanics S (bs.length + 2) i v then .panic else .ok v
   | .err e => .err e
   | .panic => .panic
